@@ -14,6 +14,10 @@ use std::collections::BTreeSet;
 
 pub struct Tiling {
     pub len: usize,
+    /// 0 = the two-piece torrent whose peer owns everything. n > 0: a torrent of n pieces (n >= 11:
+    /// outside end game) whose peer advertises piece 0 only and may change its mind while it is
+    /// being fetched: B = the same Bitfield again, H = Have(1).
+    pub mind_pieces: usize,
 }
 
 #[derive(Default)]
@@ -25,10 +29,15 @@ pub struct Mon {
     pub answered: Vec<(u32, u32, u32)>,
     pub scanned: usize,
     pub dups: usize,
+    pub rebitfield: bool,
+    pub have_sent: bool,
 }
 
 impl Tiling {
     fn torrent(&self) -> Torrent {
+        if self.mind_pieces > 0 {
+            return Torrent::new("t", self.len, &[("f", self.len * (self.mind_pieces - 1) + 5)], true);
+        }
         let total = if self.len == 1 { 2 } else { self.len + 5 };
         Torrent::new("t", self.len, &[("f", total)], true)
     }
@@ -42,6 +51,9 @@ fn block_bytes(t: &Torrent, r: &(u32, u32, u32)) -> Vec<u8> {
 impl Scenario for Tiling {
     type Mon = Mon;
     fn name(&self) -> String {
+        if self.mind_pieces > 0 {
+            return format!("tiling-{}-mind{}", self.len, self.mind_pieces);
+        }
         format!("tiling-{}", self.len)
     }
     fn cfg(&self) -> WorldCfg {
@@ -50,17 +62,35 @@ impl Scenario for Tiling {
     fn setup(&self, w: &mut World, _mon: &mut Mon) {
         let t = w.t.clone();
         let id = w.peers[0].cfg.id;
-        let all = vec![true; t.hashes.len()];
+        let mut all = vec![true; t.hashes.len()];
+        if self.mind_pieces > 0 {
+            all = (0..t.hashes.len()).map(|i| i == 0).collect();
+        }
         w.feed(0, &[refwire::handshake(t.meta.info_hash(), &id), Msg::Bitfield(refwire::bitfield_bytes(&all)), Msg::Unchoke]);
     }
     fn enabled(&self, _w: &World, mon: &Mon, _depth: usize) -> Vec<String> {
         let mut e: Vec<String> = (0..mon.outstanding.len()).map(|k| format!("A{}", k)).collect();
+        if self.mind_pieces > 0 {
+            if !mon.rebitfield {
+                e.push("B".to_string());
+            }
+            if !mon.have_sent {
+                e.push("H".to_string());
+            }
+        }
         if !mon.answered.is_empty() && mon.dups < 2 {
             e.push("D".to_string());
         }
         e
     }
     fn concretize(&self, w: &World, mon: &Mon, sym: &str) -> Vec<Ev> {
+        if sym == "B" {
+            let bits: Vec<bool> = (0..w.t.hashes.len()).map(|i| i == 0).collect();
+            return vec![Ev::Feed(0, refwire::encode(&Msg::Bitfield(refwire::bitfield_bytes(&bits))))];
+        }
+        if sym == "H" {
+            return vec![Ev::Feed(0, refwire::encode(&Msg::Have(1)))];
+        }
         let r = if sym == "D" { *mon.answered.last().unwrap() } else { mon.outstanding[sym[1..].parse::<usize>().unwrap()] };
         vec![Ev::Feed(0, refwire::encode(&Msg::Piece(r.0, r.1, block_bytes(&w.t, &r))))]
     }
@@ -80,6 +110,10 @@ impl Scenario for Tiling {
         if let Some(sym) = last {
             if sym == "D" {
                 mon.dups += 1;
+            } else if sym == "B" {
+                mon.rebitfield = true;
+            } else if sym == "H" {
+                mon.have_sent = true;
             } else {
                 let k: usize = sym[1..].parse().unwrap();
                 let r = mon.outstanding.remove(k);
@@ -153,7 +187,7 @@ impl Scenario for Tiling {
         None
     }
     fn key(&self, w: &World, mon: &Mon) -> String {
-        format!("{} out={:?} ans={} dups={}", w.default_key(), mon.outstanding, mon.answered.len(), mon.dups)
+        format!("{} out={:?} ans={} dups={} b={} h={}", w.default_key(), mon.outstanding, mon.answered.len(), mon.dups, mon.rebitfield, mon.have_sent)
     }
 }
 
@@ -406,9 +440,17 @@ pub fn run(ctx: &Ctx) -> Outcome {
     let mut total = explore::Stats { exhaustive: true, ..Default::default() };
     let mut per = vec![];
     for len in LENGTHS {
-        let s = Tiling { len };
+        let s = Tiling { len, mind_pieces: 0 };
         let st = explore::bfs(ctx, &s, 14, ctx.tier.pick(7, 1));
         per.push(json!({"scenario": s.name(), "states": st.states, "transitions": st.transitions, "depth_completed": st.depth_completed, "frontier": st.frontier_sizes}));
+        total.merge(&st);
+    }
+    // a peer that changes its mind while a piece is being fetched from it (12 pieces: outside end game)
+    for len in ctx.tier.pick(vec![40000usize], vec![40000usize, 16385, 65536]) {
+        let s = Tiling { len, mind_pieces: 12 };
+        let depth = ctx.tier.pick(8, 12);
+        let st = explore::bfs(ctx, &s, depth, ctx.tier.pick(7, 1));
+        per.push(json!({"scenario": s.name(), "depth": depth, "states": st.states, "transitions": st.transitions, "depth_completed": st.depth_completed}));
         total.merge(&st);
     }
     for len in ctx.tier.pick(vec![40000usize], vec![40000usize, 16385, 49152]) {
@@ -422,7 +464,7 @@ pub fn run(ctx: &Ctx) -> Outcome {
     explore::stats_outcome(&total, &mut o);
     o.set("block_lists_enumerated", json!(enumerated));
     o.set("scenarios", Value::Array(per));
-    o.set("rule", json!("E-ENUM: PieceRx::left(n) for every n in 1..=81921. E-SYS: per piece length in [1,16383,16384,16385,32768,32769,49153] a 2-piece torrent (second piece = short last piece of 5 bytes); events A<k> = correct answer to the k-th outstanding request, D = duplicate of the last answered block; BFS over all histories until both pieces are complete (depth <= 14); a state = canonical snapshot of manager + handler + files + outstanding set. Two-connection scenarios (tiling2-<len>): 3 pieces of <len> bytes, two connections (end game, so both may be asked for the same piece and the slower one is cancelled and re-assigned), events U<k> unchoke, V<k> one repeated unchoke, X<k> loss of a connection, A<k>:<j> correct answer to the j-th outstanding request of connection k, every chooser tie-break; the same tiling / follow-up / completion obligations per assignment, plus: no connection waits for a block already delivered, requested blocks are tracked."));
+    o.set("rule", json!("E-ENUM: PieceRx::left(n) for every n in 1..=81921. E-SYS: per piece length in [1,16383,16384,16385,32768,32769,49153] a 2-piece torrent (second piece = short last piece of 5 bytes); events A<k> = correct answer to the k-th outstanding request, D = duplicate of the last answered block; BFS over all histories until both pieces are complete (depth <= 14); a state = canonical snapshot of manager + handler + files + outstanding set. Mind-changing peer (tiling-<len>-mind12): 12 pieces (outside end game), the peer advertises piece 0 only and may, while it is being fetched, send the same Bitfield again (B) and Have(1) (H): requests must not name another piece while the current one is only partly requested. Two-connection scenarios (tiling2-<len>): 3 pieces of <len> bytes, two connections (end game, so both may be asked for the same piece and the slower one is cancelled and re-assigned), events U<k> unchoke, V<k> one repeated unchoke, X<k> loss of a connection, A<k>:<j> correct answer to the j-th outstanding request of connection k, every chooser tie-break; the same tiling / follow-up / completion obligations per assignment, plus: no connection waits for a block already delivered, requested blocks are tracked."));
     o.assume("one connection, honest payloads (corrupt ones are C01's subject), tie-breaks of the piece chooser fixed to the identity shuffle");
     o
 }
@@ -437,6 +479,10 @@ pub fn replay(_ctx: &Ctx, r: &Value) -> i32 {
     if let Some(len) = name.strip_prefix("tiling2-") {
         return explore::replay_verbose(&Tiling2 { len: len.parse().unwrap() }, &explore::hist_from_json(&r["history"]), "C10");
     }
-    let len: usize = name.trim_start_matches("tiling-").parse().unwrap();
-    explore::replay_verbose(&Tiling { len }, &explore::hist_from_json(&r["history"]), "C10")
+    let rest = name.trim_start_matches("tiling-");
+    let (len, mind) = match rest.split_once("-mind") {
+        Some((l, m)) => (l.parse().unwrap(), m.parse().unwrap()),
+        None => (rest.parse().unwrap(), 0),
+    };
+    explore::replay_verbose(&Tiling { len, mind_pieces: mind }, &explore::hist_from_json(&r["history"]), "C10")
 }
